@@ -1,4 +1,4 @@
-\* thorough exhaustive: 10 designs (2 and 3 blocks below the dummy, 2 or 3 components), a non-monotone temperature profile (the quick instance uses the monotone one)
+\* thorough exhaustive: 10 designs (2 and 3 blocks below the dummy, 2 or 3 components per block), a non-monotone temperature profile (the quick instance uses the monotone one)
 CONSTANTS
   Designs <- DesignsThorough
   Growths <- G3
